@@ -253,6 +253,17 @@ def compare(I, op, a, b, node=None):
         if isinstance(a, (Obj, PyList, PyDict, NpArr)) or isinstance(b, (Obj, PyList, PyDict, NpArr)):
             r = a is b
             return r if isinstance(op, ast.Is) else (not r)
+        if isinstance(a, tuple) and isinstance(b, tuple):
+            # identity of tuple objects is not tracked: unequal tuples are distinct objects; for equal ones the
+            # answer is an unconstrained boolean (python gives no guarantee either way)
+            t = _eq_term(I, a, b)
+            if t is False:
+                r = False
+                return r if isinstance(op, ast.Is) else (not r)
+            ident = I.ctx.fresh("tuple_is", z3.BoolSort())
+            if t is not True:
+                I.ctx.assume(z3.Implies(ident, t))
+            return mk(ident if isinstance(op, ast.Is) else z3.Not(ident), "bool")
         raise EngineLimit(f"'is' between {a!r} and {b!r}")
     if isinstance(op, (ast.In, ast.NotIn)):
         t = contains(I, b, a, node)
@@ -1183,6 +1194,31 @@ def _m_get(I, b, a, kw, node):
             return got
         return default
     raise EngineLimit("dict.get")
+
+
+@ext("builtins.dict.fromkeys")
+def _m_fromkeys(I, b, a, kw, node):
+    keys = I.iter_concrete(a[0])
+    val = a[1] if len(a) > 1 else None
+    d = PyDict()
+    for k in keys:
+        setitem(I, d, k, val, node)
+    return d
+
+
+@ext("ndarray.reshape")
+def _m_reshape(I, b, a, kw, node):
+    # assumed NumPy contract: reshape is the inverse of the row-major flatten for matching sizes (a view)
+    shape = a[0] if len(a) == 1 and isinstance(a[0], tuple) else tuple(a)
+    fo = getattr(b.cell, "flat_of", None)
+    if b.ndim == 1 and fo is not None and len(shape) == 2:
+        src, R, W = fo
+        if I.ctx.branch(z3.And(ival(shape[0]) == ival(R), ival(shape[1]) == ival(W))):
+            c = NpCell(src, (ival(R) if is_sym(R) or z3.is_expr(R) else R, ival(W) if is_sym(W) or z3.is_expr(W) else W),
+                       dtype=b.cell.dtype, fresh=True, label="reshaped")
+            return NpArr(c)
+        I.raise_("ValueError", node)
+    raise EngineLimit("reshape of an array that is not a known flattening")
 
 
 @ext("dict.setdefault")
